@@ -127,6 +127,27 @@ func (g *Gen) classLiteral(sc *StrClass, lit, sym string) {
 
 // classClosure emits the closure lemmas for the string functions declared so far (idempotent).
 func (g *Gen) classClosure() {
+	// inclusions between classes, decided by evaluating both predicates on all 256 octets
+	for _, a := range g.classes {
+		for _, b := range g.classes {
+			if a == b || g.assumed["incl:"+a.Name+":"+b.Name] {
+				continue
+			}
+			g.assumed["incl:"+a.Name+":"+b.Name] = true
+			sub := true
+			for c := int64(0); c < 256; c++ {
+				va, _, ok1 := evalPred(a.P, c, g.W.db.Consts)
+				vb, _, ok2 := evalPred(b.P, c, g.W.db.Consts)
+				if !ok1 || !ok2 || (va != 0 && vb == 0) {
+					sub = false
+					break
+				}
+			}
+			if sub {
+				g.assume(fmt.Sprintf("(forall ((s Str)) (! (=> (cls!%s s) (cls!%s s)) :pattern ((cls!%s s))))", a.Name, b.Name, a.Name))
+			}
+		}
+	}
 	for _, sc := range g.classes {
 		n := "cls!" + sc.Name
 		if g.declared["sconcat"] && !g.assumed["cc:"+sc.Name] {
